@@ -269,6 +269,13 @@ def build(tier, rng):
         "duplicate-period": f"otpauth://totp/a?secret={S}&period=30&period=60",
         "duplicate-algorithm": f"otpauth://totp/a?secret={S}&algorithm=SHA1&algorithm=SHA256",
         "duplicate-label": f"otpauth://totp/a?secret={S}&label=b",
+        # the same name twice is a duplicate however it is spelled (capitalised / upper-case names are what some apps export)
+        "duplicate-Secret": f"otpauth://totp/a?Secret={S}&Secret=GEZDGNBVGY3TQOJR",
+        "duplicate-SECRET": f"otpauth://totp/a?secret={S}&SECRET={S}&SECRET=GEZDGNBVGY3TQOJR",
+        "duplicate-Issuer": f"otpauth://totp/a?secret={S}&Issuer=Good&Issuer=Evil",
+        "duplicate-Digits": f"otpauth://totp/a?secret={S}&Digits=8&Digits=6",
+        "duplicate-Period": f"otpauth://totp/a?secret={S}&Period=30&Period=3600",
+        "duplicate-Algorithm": f"otpauth://totp/a?secret={S}&Algorithm=SHA1&Algorithm=SHA512",
         "missing-secret": "otpauth://totp/a",
         "missing-secret-other-params": "otpauth://totp/a?issuer=x&digits=6",
         "empty-secret": "otpauth://totp/a?secret=",
